@@ -203,8 +203,10 @@ func PrepareStage2(repo, schemaDir string, scen []*Scenario, specs *SpecDB) (*St
 	os.MkdirAll(s2.ModDir, 0o755)
 	gomod, _ := os.ReadFile(filepath.Join(schemaDir, "go.mod"))
 	os.WriteFile(filepath.Join(s2.ModDir, "go.mod"), gomod, 0o644)
-	if err := copyDir(filepath.Join(schemaDir, "dep"), filepath.Join(s2.ModDir, "dep"), nil); err != nil {
-		return nil, err
+	for _, d := range []string{"dep", "dep2"} {
+		if err := copyDir(filepath.Join(schemaDir, d), filepath.Join(s2.ModDir, d), nil); err != nil {
+			return nil, err
+		}
 	}
 	t1 := time.Now()
 	var wg sync.WaitGroup
@@ -381,6 +383,73 @@ func parseArg(a string) (string, string) {
 func (s2 *Stage2) CheckAll() {
 	for _, sc := range s2.Scen {
 		s2.checkScenario(sc)
+	}
+	s2.crossFormatter()
+}
+
+// crossFormatter: -fmt noop and -fmt goimports differ from the default output in layout only (C16).
+func (s2 *Stage2) crossFormatter() {
+	var def, noop, gi *Scenario
+	for _, sc := range s2.Scen {
+		if sc.Stub || sc.SkipEnsure || sc.Resets || sc.PkgMode != "" || strings.Join(sc.Args, "+") != strings.Join(defaultArgs, "+") {
+			continue
+		}
+		switch sc.Fmt {
+		case "":
+			def = sc
+		case "noop":
+			noop = sc
+		case "goimports":
+			gi = sc
+		}
+	}
+	if def == nil || def.ExitCode != 0 {
+		return
+	}
+	norm := func(sc *Scenario) []byte { return bytes.ReplaceAll(sc.Output, []byte("/"+sc.Name+"/"), []byte("/cXX/")) }
+	if noop != nil && noop.ExitCode == 0 {
+		f, err := format.Source(norm(noop))
+		s2.tob(noop, "gofmt-of-noop-equals-default", []string{"C16"}, err == nil && bytes.Equal(f, norm(def)), "gofmt applied to the -fmt noop output must give the default output byte for byte")
+	}
+	if gi != nil && gi.ExitCode == 0 {
+		sum := func(sc *Scenario) (string, string) {
+			fset := token.NewFileSet()
+			f, err := parser.ParseFile(fset, "x.go", norm(sc), 0)
+			if err != nil {
+				return "parse error", ""
+			}
+			var imps, decls []string
+			for _, im := range f.Imports {
+				imps = append(imps, im.Path.Value)
+			}
+			sort.Strings(imps)
+			for _, d := range f.Decls {
+				switch x := d.(type) {
+				case *ast.FuncDecl:
+					recv := ""
+					if x.Recv != nil && len(x.Recv.List) > 0 {
+						var b bytes.Buffer
+						format.Node(&b, fset, x.Recv.List[0].Type)
+						recv = b.String() + "."
+					}
+					var b bytes.Buffer
+					format.Node(&b, fset, x.Type)
+					decls = append(decls, "func "+recv+x.Name.Name+" "+b.String())
+				case *ast.GenDecl:
+					if x.Tok == token.IMPORT {
+						continue
+					}
+					var b bytes.Buffer
+					format.Node(&b, fset, x)
+					decls = append(decls, b.String())
+				}
+			}
+			return strings.Join(imps, " "), strings.Join(decls, "\n")
+		}
+		di, dd := sum(def)
+		gim, gd := sum(gi)
+		s2.tob(gi, "goimports-same-import-paths", []string{"C16"}, di == gim, fmt.Sprintf("default: %s; goimports: %s", di, gim))
+		s2.tob(gi, "goimports-same-declarations", []string{"C16"}, dd == gd, "top-level declarations (types, vars, function signatures) must be the same")
 	}
 }
 
